@@ -285,6 +285,14 @@ def corpus(ck):
     A("merge_512_plus_513", [mk(0, 512), mk(512, 1025)])
     A("merge_600_600_600", [mk(0, 600), mk(600, 1200), mk(1200, 1800)])
     A("merge_2_plus_510_plus_1", [mk(0, 2), mk(2, 512), mk(512, 513)])
+    # k-means path with an outlier that ends up alone in a cluster; gap characters only after the 50th record
+    rr = ck.rng.__class__(12345)
+    fam = gen.family(rr, 130, 60, gen.AA, "random", 0.15, 0.03, 2)
+    A("kmeans_130_related_plus_1_unrelated", [fa([("s%d" % i, x) for i, x in enumerate(fam)] + [("outlier", gen.rand_seq(rr, 248, "WCHMYFP"))])])
+    A("kmeans_130_related_plus_long_outlier", [fa([("outlier", gen.rand_seq(rr, 400, "GPNDST"))] + [("s%d" % i, x) for i, x in enumerate(fam)])])
+    lg = [("s%d" % i, x) for i, x in enumerate(gen.family(rr, 64, 40, gen.DNA, "random", 0.15, 0.05, 2))]
+    lg[56] = (lg[56][0], lg[56][1][:10] + "--" + lg[56][1][10:25] + "." + lg[56][1][25:])
+    A("gap_characters_only_after_record_50", [fa(lg)])
     A("input_lines_gt_1024", [(">a\n" + "ACGT\n" * 1100 + ">b\n" + "ACGA\n" * 500 + ">c\nACGT\n").encode()])
     A("input_lines_gt_1536", [(">a\n" + "ACGT\n" * 1600 + ">b\n" + "ACGA\n" * 100).encode()])
     A("output_lines_gt_1024_clu", [fa([("s%d" % i, "MKVLDEFWHIKLMPQRS" * 8) for i in range(400)])], ["-f", "clu"])
